@@ -12,7 +12,7 @@
     from the current tree, also with debug toggled.
 """
 from .. import core
-from ..exec import callcheck, generic_e2e, structs_e2e, upstream
+from ..exec import callcheck, generic_e2e, members_e2e, structs_e2e, upstream
 
 LEVEL = "exploration"
 
@@ -50,6 +50,8 @@ def run(ctx):
     # fortran_generic variants (coercion, scalar-or-array, with a string argument) and assumed-rank arguments,
     # each called through the documented generic name (fortran.rst "Generic Interfaces")
     generic_e2e.run_generics(ctx, 3 if quick else 60, [None, {"F_CFI": True}] if quick else [None, {"F_CFI": True}, {"debug": True}])
+    # class member variables (getters / setters, +readonly, +name) and inherited members / methods through a type extension
+    members_e2e.run_members(ctx, "fortran", 4 if quick else 80)
     names = upstream.target_lists()["fortran"]
     jobs = [(n, None) for n in names]
     if not quick:
@@ -71,6 +73,8 @@ def replay(ctx, rec):
         return
     if "struct_case" in c:
         return structs_e2e.replay_case(ctx, rec)
+    if "member_case" in c:
+        return members_e2e.replay_case(ctx, rec)
     if "generic_case" in c:
         return generic_e2e.replay_case(ctx, rec)
     callcheck.replay_case(ctx, rec)
